@@ -13,10 +13,12 @@ def _run(rules):
 
 
 PROPERTIES = {}
+NOT_APPLICABLE = {}
 
 
 def prop(pid, title, rules, explanation, not_decided, **kw):
-    PROPERTIES[pid] = dict(title=title, run=_run(rules), explanation=explanation, not_decided=not_decided, **kw)
+    PROPERTIES[pid] = dict(title=title, run=_run(rules), explanation=explanation, not_decided=not_decided,
+                           rule_names=[getattr(r, '__name__', '?').replace('rule_', '').upper() for r in rules], **kw)
 
 
 prop('C07', 'publication / race freedom through the container',
@@ -46,3 +48,27 @@ prop('C09', 'writers and guards never block',
      'recursion, no loop waits on a debt slot; Node.next is written once before publication (NEXT-ONCE).',
      'A numeric step bound for CAS loops under contention is not decided (lock-free, not wait-free); spurious '
      'compare_exchange_weak failures are trusted to be finite.')
+
+from . import totality as T
+
+
+def _c13(fx, col):
+    T.rule_panic_inv(fx, col)
+    T.rule_node_some(fx, col)
+    T.rule_with_take(fx, col)
+    T.rule_index_mod(fx, col)
+    T.rule_envelope_provenance(fx, col)
+    T.rule_cooldown_owned(fx, col)
+    T.rule_txn_closed(fx, col)
+    O.rule_tag_table(fx, col)
+    O.rule_inuse_fsm(fx, col)
+
+
+prop('C13', 'operations are total',
+     [_c13, P.rule_loop_class],
+     'Decides: every panic-capable terminator reachable from the API roots under the Hybrid strategies (calls into '
+     'core::panicking, Option/Result unwrap/expect, assert!/debug_assert!/unreachable!, compiler-inserted bounds / overflow / '
+     'division / pointer checks) is matched by a line-free signature to a discharge, and each discharge is itself a checked '
+     'static fact: NODE-SOME (typestate of the thread\'s node handle on every path, including the generation-wrap branch), '
+     'WITH-TAKE, INDEX-MOD, ENVELOPE-PROVENANCE, COOLDOWN-OWNED, TXN-CLOSED, TAG-TABLE, INUSE-FSM; hangs are excluded by the loop classes of C09.',
+     'Panics inside std leaves other than the listed entry points; that all other guarantees continue to hold after the wrap beyond re-running every rule on that path.')
